@@ -102,14 +102,30 @@ def check_c06(run):
 
     def one(g):
         cs = byg[g]
+        # `sel`: the operations that inherit the document's requirement, lift it, or name only the scheme `key`
+        # themselves - generating them alone must not lose the schemes only the inherited requirement names
+        def names(own):
+            return {s for alt in own for s in (alt if isinstance(alt, list) else [alt])}
+        for c in cs:
+            c["tag"] = "sel" if (c["inherit"] or names(c["own"]) <= {"key"}) else "other"
         cp = run.path("sec-%s.ndjson" % g); write_ndjson(cp, cs)
         sp = run.path("sec-%s.json" % g)
         run.sh([vh, "sec-materialise", "-cases", cp, "-out", sp])
-        drv, err = build_server(run, g, sp)
+        evs_all, n_all = [], 0
+        # the whole document, and generation restricted to the operations tagged `sel` (Security!Selection)
+        for variant, flags in (("all", []), ("tagged", ["--tags", "sel"])):
+            e, n = one_variant(g, cs, sp, variant, flags)
+            evs_all += e; n_all += n
+        return g, evs_all, n_all
+
+    def one_variant(g, cs, sp, variant, flags):
+        drv, err = build_server(run, g + "-" + variant, sp, extra_flags=flags)
         if not drv:
-            return g, [dict(ev="Server", g=g, ok=False, err=err[:800])], 0
+            return [dict(ev="Server", g=g, ok=False, err=err[:800])], 0
         reqs, meta = [], []
         for i, c in enumerate(cs):
+            if variant == "tagged" and c["tag"] != "sel":
+                continue
             for k, cr in enumerate(c["creds"]):
                 for deny in ([False, True] if k % 3 == 0 else [False]):
                     h, q = cred_wire(cr, deny)
@@ -117,13 +133,13 @@ def check_c06(run):
                     for valid, lim in ((True, "limit=2"), (False, "limit=0"), (False, ""))[: 3 if (k + i) % 2 == 0 else 1]:
                         reqs.append(dict(id=len(reqs), method="GET", path="/op%d" % i, rawQuery="&".join(x for x in (q, lim) if x), headers=h))
                         meta.append((c, cr, deny, valid))
-        start, resp = run_driver(run, drv, reqs, g)
+        start, resp = run_driver(run, drv, reqs, g + "-" + variant)
         evs = [dict(ev="Server", g=g, ok=True, err="")]
         for r, (c, cr, deny, valid) in zip(resp, meta):
             evs.append(dict(ev="Request", g=g, ghas=c["ghas"], galts=c["galts"], inherit=c["inherit"], own=c["own"],
                             creds=cr, deny=deny, valid=valid, status=r["status"], reached=r["reached"], principal=r["principal"],
-                            panicked=r["panicked"], op=r["handler"]))
-        return g, evs, len(reqs)
+                            panicked=r["panicked"], op=r["handler"], selection=variant))
+        return evs, len(reqs)
 
     with concurrent.futures.ThreadPoolExecutor(max_workers=3) as ex:
         results = list(ex.map(one, globs))
@@ -134,7 +150,7 @@ def check_c06(run):
         if ev["ev"] == "Server":
             run.violations.append(dict(signature="server for global requirement %s: %s" % (ev["g"], e["why"]), detail=ev)); continue
         sig = "%s | global=%s own=%s creds=%s deny=%s%s" % (e["why"], ev["g"], "inherit" if ev["inherit"] else json.dumps(ev["own"]),
-                                                            json.dumps(ev["creds"], sort_keys=True), ev["deny"], "" if ev["valid"] else " invalid-request")
+                                                            json.dumps(ev["creds"], sort_keys=True), ev["deny"], ("" if ev["valid"] else " invalid-request") + ("" if ev["selection"] == "all" else " --tags"))
         run.violations.append(dict(signature=sig, detail=ev))
     nreq = sum(n for _, _, n in results)
     cov = dict(states=mc["states"] + gen["states"], transitions=mc["transitions"] + gen["transitions"],
